@@ -1573,6 +1573,66 @@ func (p *Posix) CompleteMultipartUpload(ctx context.Context, input *s3.CompleteM
 		}
 	}
 
+	var crc32 *string
+	var crc32c *string
+	var sha1 *string
+	var sha256 *string
+	var crc64nvme *string
+
+	// Calculate the checksum of the assembled object and compare it with
+	// the provided one. This is the last check on the request: nothing of
+	// the object being replaced (attributes kept apart from the file, its
+	// version) is touched before it has passed
+	var objChecksum *s3response.Checksum
+	if checksums.Type != "" {
+		checksum := s3response.Checksum{
+			Algorithm: checksumAlgorithm,
+			Type:      checksums.Type,
+		}
+
+		var sum string
+		switch checksums.Type {
+		case types.ChecksumTypeComposite:
+			sum = compositeChecksumRdr.Sum()
+		case types.ChecksumTypeFullObject:
+			sum = hashRdr.Sum()
+		}
+
+		switch checksumAlgorithm {
+		case types.ChecksumAlgorithmCrc32:
+			if input.ChecksumCRC32 != nil && *input.ChecksumCRC32 != sum {
+				return nil, s3err.GetChecksumBadDigestErr(checksumAlgorithm)
+			}
+			checksum.CRC32 = &sum
+			crc32 = &sum
+		case types.ChecksumAlgorithmCrc32c:
+			if input.ChecksumCRC32C != nil && *input.ChecksumCRC32C != sum {
+				return nil, s3err.GetChecksumBadDigestErr(checksumAlgorithm)
+			}
+			checksum.CRC32C = &sum
+			crc32c = &sum
+		case types.ChecksumAlgorithmSha1:
+			if input.ChecksumSHA1 != nil && *input.ChecksumSHA1 != sum {
+				return nil, s3err.GetChecksumBadDigestErr(checksumAlgorithm)
+			}
+			checksum.SHA1 = &sum
+			sha1 = &sum
+		case types.ChecksumAlgorithmSha256:
+			if input.ChecksumSHA256 != nil && *input.ChecksumSHA256 != sum {
+				return nil, s3err.GetChecksumBadDigestErr(checksumAlgorithm)
+			}
+			checksum.SHA256 = &sum
+			sha256 = &sum
+		case types.ChecksumAlgorithmCrc64nvme:
+			if input.ChecksumCRC64NVME != nil && *input.ChecksumCRC64NVME != sum {
+				return nil, s3err.GetChecksumBadDigestErr(checksumAlgorithm)
+			}
+			checksum.CRC64NVME = &sum
+			crc64nvme = &sum
+		}
+		objChecksum = &checksum
+	}
+
 	upiddir := filepath.Join(objdir, uploadID)
 
 	userMetaData := make(map[string]string)
@@ -1658,60 +1718,9 @@ func (p *Posix) CompleteMultipartUpload(ctx context.Context, input *s3.CompleteM
 		}
 	}
 
-	var crc32 *string
-	var crc32c *string
-	var sha1 *string
-	var sha256 *string
-	var crc64nvme *string
-
-	// Calculate, compare with the provided checksum and store them
-	if checksums.Type != "" {
-		checksum := s3response.Checksum{
-			Algorithm: checksumAlgorithm,
-			Type:      checksums.Type,
-		}
-
-		var sum string
-		switch checksums.Type {
-		case types.ChecksumTypeComposite:
-			sum = compositeChecksumRdr.Sum()
-		case types.ChecksumTypeFullObject:
-			sum = hashRdr.Sum()
-		}
-
-		switch checksumAlgorithm {
-		case types.ChecksumAlgorithmCrc32:
-			if input.ChecksumCRC32 != nil && *input.ChecksumCRC32 != sum {
-				return nil, s3err.GetChecksumBadDigestErr(checksumAlgorithm)
-			}
-			checksum.CRC32 = &sum
-			crc32 = &sum
-		case types.ChecksumAlgorithmCrc32c:
-			if input.ChecksumCRC32C != nil && *input.ChecksumCRC32C != sum {
-				return nil, s3err.GetChecksumBadDigestErr(checksumAlgorithm)
-			}
-			checksum.CRC32C = &sum
-			crc32c = &sum
-		case types.ChecksumAlgorithmSha1:
-			if input.ChecksumSHA1 != nil && *input.ChecksumSHA1 != sum {
-				return nil, s3err.GetChecksumBadDigestErr(checksumAlgorithm)
-			}
-			checksum.SHA1 = &sum
-			sha1 = &sum
-		case types.ChecksumAlgorithmSha256:
-			if input.ChecksumSHA256 != nil && *input.ChecksumSHA256 != sum {
-				return nil, s3err.GetChecksumBadDigestErr(checksumAlgorithm)
-			}
-			checksum.SHA256 = &sum
-			sha256 = &sum
-		case types.ChecksumAlgorithmCrc64nvme:
-			if input.ChecksumCRC64NVME != nil && *input.ChecksumCRC64NVME != sum {
-				return nil, s3err.GetChecksumBadDigestErr(checksumAlgorithm)
-			}
-			checksum.CRC64NVME = &sum
-			crc64nvme = &sum
-		}
-		err := p.storeChecksums(f.File(), bucket, object, checksum)
+	// store the checksum calculated above
+	if objChecksum != nil {
+		err := p.storeChecksums(f.File(), bucket, object, *objChecksum)
 		if err != nil {
 			return nil, fmt.Errorf("store object checksum: %w", err)
 		}
